@@ -62,7 +62,7 @@ func c04Env(id string, label string) (*Environment, []string) {
 // The set of detectors in use, which CreateEnvironment compares a new environment's needs with, is exactly the
 // set of enum detectors named in the `detectors` lists of the live environments, wherever in a list they stand
 // and whatever else the list names; and an environment's own needs are computed the same way.
-//verif:entry HarnessDetectorsInUse unwind=64 reach=inuse,free,unknown-name replace=github.com/AliceO2Group/Control/core/environment.JSONSliceToSlice=>c04Slice
+//verif:entry HarnessDetectorsInUse unwind=64 conform=12 reach=inuse,free,unknown-name replace=github.com/AliceO2Group/Control/core/environment.JSONSliceToSlice=>c04Slice
 func HarnessDetectorsInUse() {
 	a, la := c04Env("2oDvieFrVTa", "a")
 	b, lb := c04Env("2oDvieFrVTb", "b")
